@@ -10,10 +10,11 @@ CONSTANTS
   Den = 21
   MaxSlots = 5
   GenN = 0
+  SubOrder = "sorted"
   UnionMode = "any"
   Mode = "trace"
 INIT TInit
 NEXT TNext
 POSTCONDITION Post
 CHECK_DEADLOCK FALSE
-INVARIANTS DetLists DetVerify DetHash
+INVARIANTS DetLists DetVerify DetHash DetEff
